@@ -285,6 +285,7 @@ impl Group for C12Node {
             ["n_new", l, ty] => format!("spec {} {}", l, ty),
             ["n_keysend", now, amt] => format!("insert {} {}", now, amt),
             ["n_invoice", now, amt] => format!("insert {} {}", now, amt),
+            ["n_dup", now] => format!("dup {}", now),
             ["n_restart", l, ty] => format!("restart {} {}", l, ty),
             _ => op.to_string(),
         })
@@ -309,6 +310,12 @@ impl Group for C12Node {
             } else {
                 ops.push(format!("n_keysend {} {}", t, a));
             }
+            // the same payment asked again (retry), possibly several times
+            let mut k = 0;
+            while k < 3 && rng.chance(1, 4) {
+                ops.push(format!("n_dup {}", t));
+                k += 1;
+            }
         }
         ops
     }
@@ -327,10 +334,25 @@ impl Group for C12Node {
         let mut log: Vec<(u64, u64)> = Vec::new();
         let mut hash_ctr: u32 = 0;
         let (mut st, mut sf, mut sr) = (false, false, false);
+        // last approval request: (is_invoice, amount, counted as approved by the harness)
+        let mut last_req: Option<(bool, u64, bool)> = None;
         for (i, op) in ops.iter().enumerate() {
-            let t: Vec<&str> = op.split_whitespace().collect();
+            let t0: Vec<&str> = op.split_whitespace().collect();
+            // a retry re-issues the previous request unchanged (same payment hash, same amount)
+            let (dup, rewritten);
+            let t: Vec<&str> = if let ["n_dup", now] = t0.as_slice() {
+                match last_req {
+                    Some((is_inv, amt, _)) => {
+                        dup = true;
+                        rewritten = format!("{} {} {}", if is_inv { "n_invoice" } else { "n_keysend" }, now, amt);
+                        rewritten.split_whitespace().collect()
+                    }
+                    None => { co.out.push("bad-op".into()); continue; }
+                }
+            } else { dup = false; t0.clone() };
             let line = match t.as_slice() {
                 ["n_new", l, ty] => {
+                    last_req = None;
                     let n = Arc::new(Node::new(config, &seed, vec![], services(persister.clone(), clock.clone(), l.parse().unwrap(), itype(ty).unwrap())));
                     persister.new_node(&n.get_id(), &config, &*n.get_state()).unwrap();
                     persister.new_tracker(&n.get_id(), &n.get_tracker()).unwrap();
@@ -345,10 +367,11 @@ impl Group for C12Node {
                     let now: u64 = now.parse().unwrap();
                     let amt: u64 = amt.parse().unwrap();
                     clock.set(Duration::from_secs(now));
-                    hash_ctr += 1;
+                    if !dup { hash_ctr += 1; }
                     let mut h = [0u8; 32];
                     h[..4].copy_from_slice(&hash_ctr.to_be_bytes());
                     let is_invoice = *kind == "n_invoice";
+                    let already_counted = dup && last_req.map(|r| r.2).unwrap_or(false);
                     let r = std::panic::catch_unwind(std::panic::AssertUnwindSafe(|| {
                         if is_invoice {
                             // a real signed BOLT-11 invoice issued "now" for a fresh payment hash
@@ -381,7 +404,11 @@ impl Group for C12Node {
                                 let v = &s.velocity_control;
                                 (digest(v), v.limit, (v.buckets.len() as u64 - 1) * v.bucket_interval as u64)
                             };
-                            if ok {
+                            last_req = Some((is_invoice, amt, ok || already_counted));
+                            if dup { co.tags.insert(format!("dup:{}", ok)); }
+                            if ok && already_counted {
+                                // a repeat of an approved payment: answered true, nothing new approved
+                            } else if ok {
                                 st = true;
                                 co.tags.insert("keysend:true".into());
                                 log.push((now, amt));
